@@ -23,19 +23,19 @@ type Obligation struct {
 }
 
 type Query struct {
-	Script  string
-	Inputs  []inputSym
-	Expect  string // "unsat" for proof obligations, "sat" for cover / canary queries
-	PathID  int
-	Result  string
-	Solver  string
-	Time    float64
-	Model   map[string]string
-	Output  string
-	Quant   bool
+	Script    string
+	Inputs    []inputSym
+	Expect    string // "unsat" for proof obligations, "sat" for cover / canary queries
+	PathID    int
+	Result    string
+	Solver    string
+	Time      float64
+	Model     map[string]string
+	Output    string
+	Quant     bool
 	LoopInits [][2]string
-	KeepFile bool
-	File    string
+	KeepFile  bool
+	File      string
 }
 
 type inputSym struct {
@@ -44,36 +44,36 @@ type inputSym struct {
 }
 
 type Exec struct {
-	prog    *ssa.Program
-	specs   *Specs
-	fn      *ssa.Function
-	key     string
-	con     *Contract
-	fresh   int
-	quantified bool
-	obls    map[string]*Obligation
-	order   []string
-	tparam  map[string]types.Type
-	warnings []string
+	prog        *ssa.Program
+	specs       *Specs
+	fn          *ssa.Function
+	key         string
+	con         *Contract
+	fresh       int
+	quantified  bool
+	obls        map[string]*Obligation
+	order       []string
+	tparam      map[string]types.Type
+	warnings    []string
 	assumptions map[string]bool
-	pathID  int
-	typeIDs map[string]uint64
-	loops   map[*ssa.Function]*loopInfo
-	ordinal map[ssa.Instruction]int
-	ufDecl  map[string]string
-	globals map[*ssa.Global]uint64
-	recording int
-	recStack []*recorder
-	preSk   map[*CExpr]V
-	ld      *Loaded
-	maxPaths int
-	budget  int
+	pathID      int
+	typeIDs     map[string]uint64
+	loops       map[*ssa.Function]*loopInfo
+	ordinal     map[ssa.Instruction]int
+	ufDecl      map[string]string
+	globals     map[*ssa.Global]uint64
+	recording   int
+	recStack    []*recorder
+	preSk       map[*CExpr]V
+	ld          *Loaded
+	maxPaths    int
+	budget      int
 }
 
 type loopRec struct {
-	measure string
+	measure    string
 	hasMeasure bool
-	modified map[string]bool
+	modified   map[string]bool
 }
 
 type deferred struct {
@@ -85,37 +85,40 @@ type deferred struct {
 }
 
 type Frame struct {
-	fn      *ssa.Function
-	depth   int
-	defers  []deferred
-	visits  map[*ssa.BasicBlock]int
-	loopRec map[*ssa.BasicBlock]*loopRec
-	names   map[types.Object]V
-	bindings []V
-	args    []V
-	entryMem map[string]*MemVer
+	fn        *ssa.Function
+	depth     int
+	defers    []deferred
+	visits    map[*ssa.BasicBlock]int
+	loopRec   map[*ssa.BasicBlock]*loopRec
+	names     map[types.Object]V
+	headMem   map[string]*MemVer // memories at the head of the current iteration of the innermost cut loop
+	entryVals map[string]V       // value of each loop-carried variable when its loop was entered (entry_<name>)
+	bindings  []V
+	args      []V
+	entryMem  map[string]*MemVer
 }
 
 type State struct {
-	x        *Exec
-	script   []string
-	env      map[ssa.Value]V
-	mem      map[string]*MemVer
-	inst     map[*MemVer]map[string]bool
-	modified map[string]bool
-	shadow   map[string]*Prov
-	brk      map[string]string
-	frames   []*Frame
-	inputs   []inputSym
-	nlocal   int
-	regions  int
-	allocs   []string // allocation size terms (elements), for the allocation bound
-	pool     map[int][]string // instantiation terms by width, for callee quantifiers
-	stale    map[string]bool  // pointer terms whose pointee may hold contents left over from earlier use
-	ghostMemo map[string][]V  // results of ghost calls by (callee, argument terms, memory versions)
-	qasm     []*qAssume       // quantified assumptions, instantiated again whenever a new term appears
-	inLate   bool
-	loopInits [][2]string     // (havocked loop symbol, its value on loop entry): replay prefers first iterations
+	x         *Exec
+	script    []string
+	env       map[ssa.Value]V
+	mem       map[string]*MemVer
+	inst      map[*MemVer]map[string]bool
+	modified  map[string]bool
+	shadow    map[string]*Prov
+	brk       map[string]string
+	frames    []*Frame
+	inputs    []inputSym
+	nlocal    int
+	regions   int
+	allocs    []string         // allocation size terms (elements), for the allocation bound
+	pool      map[int][]string // instantiation terms by width, for callee quantifiers
+	stale     map[string]bool  // pointer terms whose pointee may hold contents left over from earlier use
+	ghostMemo map[string][]V   // results of ghost calls by (callee, argument terms, memory versions)
+	strConst  map[string]V     // string constants by content
+	qasm      []*qAssume       // quantified assumptions, instantiated again whenever a new term appears
+	inLate    bool
+	loopInits [][2]string // (havocked loop symbol, its value on loop entry): replay prefers first iterations
 }
 
 func (st *State) fork() *State {
@@ -164,6 +167,11 @@ func (st *State) fork() *State {
 		for k, v := range f.names {
 			nf.names[k] = v
 		}
+		nf.headMem = f.headMem
+		nf.entryVals = map[string]V{}
+		for k, v := range f.entryVals {
+			nf.entryVals[k] = v
+		}
 		n.frames = append(n.frames, nf)
 	}
 	n.inputs = append([]inputSym(nil), st.inputs...)
@@ -173,6 +181,10 @@ func (st *State) fork() *State {
 	n.stale = map[string]bool{}
 	for k, v := range st.stale {
 		n.stale[k] = v
+	}
+	n.strConst = map[string]V{}
+	for k, v := range st.strConst {
+		n.strConst[k] = v
 	}
 	n.ghostMemo = map[string][]V{}
 	for k, v := range st.ghostMemo {
